@@ -31,7 +31,11 @@ def classify(iToken, lObjects):
     iCurrent = primary_unit_declaration.detect(iCurrent, lObjects)
 
     while not utils.is_next_token("end", iCurrent, lObjects):
+        iPrevious = iCurrent
         iCurrent = secondary_unit_declaration.detect(iCurrent, lObjects)
+        if iCurrent == iPrevious:
+            # neither a secondary unit declaration nor the end keyword: let the required token below report it
+            break
 
     iCurrent = utils.assign_next_token(token.end_keyword, iCurrent, lObjects)
     iCurrent = utils.assign_next_token_required("units", token.end_units_keyword, iCurrent, lObjects)
